@@ -120,7 +120,7 @@ def functions(code):
         if j < 0 or j >= len(code):
             continue
         end = match_brace(code, j)
-        yield m.group(1), code[j:end], m.start()
+        yield m.group(1), code[j:end], (j, end)
 
 
 def read(rel):
@@ -142,9 +142,11 @@ FS_TOKENS = [
     (r"\.append\(true\)", "optAppend"),
     (r"\.open\(", "optOpen"),
     (r"\bwrite_all\b", "writeAll"),
+    (r"\bfs::write\b", "fsWrite"),
+    (r"\bfs::hard_link\b", "hardLink"),
 ]
 UNKNOWN_FS = re.compile(r"\b(?:fs|File|OpenOptions)::(\w+)")
-KNOWN_FS_NAMES = {"open", "remove_file", "create_dir_all", "new"}
+KNOWN_FS_NAMES = {"open", "remove_file", "create_dir_all", "new", "write", "hard_link", "read_to_string"}
 
 
 def fs_shape(body, what):
@@ -166,29 +168,69 @@ def lock_rs():
     if not m:
         raise TranslateError("lock.rs: STALE_LOCK_TIMEOUT_SECS not found")
     timeout = int(m.group(1).replace("_", ""))
-    fns = {name: body for name, body, _ in functions(code)}
+    spans = {}
+    fns = {}
+    for name, body, span in functions(code):
+        fns.setdefault(name, body)
+        spans.setdefault(name, span)
     for need in ("acquire", "drop", "is_process_running"):
         if need not in fns:
             raise TranslateError(f"lock.rs: fn {need} not found")
     acq = fns["acquire"]
     shape = fs_shape(acq, "acquire")
     drop = fs_shape(fns["drop"], "drop")
+    # exit path that skips destructors (Ctrl-C at the confirmation prompt)
+    release_held = fs_shape(fns["release_held_locks"], "release_held_locks") if "release_held_locks" in fns else []
     m = re.search(r"parts\.len\(\)\s*(==|!=|>=|<=|>|<)\s*(\d+)", acq)
     if not m:
         raise TranslateError("lock.rs: `parts.len() == N` test not found")
     parts_op, parts_n = m.group(1), int(m.group(2))
-    if not re.search(r"\.trim\(\)\s*\.split\(':'\)", re.sub(r"\s+", "", blank_keep_chars(raw, acq_span(raw)))):
-        # the separator is a char literal, which blank_noncode erased: look at the raw text of acquire
+    # the separator is a char literal, which blank_noncode erased: look at the raw text of the body of acquire
+    a0, a1 = spans["acquire"]
+    raw_acq = re.sub(r"//[^\n]*", "", raw[a0:a1])
+    if not re.search(r"\.trim\(\)\.split\(':'\)", re.sub(r"\s+", "", raw_acq)):
         raise TranslateError("lock.rs: `content.trim().split(':')` not found")
+    # what follows the `if parts.len() == 2 { … }` block: nothing, or `else if content.trim().is_empty() { remove }`
+    mparts = re.search(r"\bif\s+parts\.len\(\)\s*==\s*\d+\s*\{", acq)
+    if not mparts:
+        raise TranslateError("lock.rs: `if parts.len() == N {` not found")
+    pend = match_brace(acq, mparts.end() - 1)
+    after = acq[pend:]
+    abandon = "none"
+    mel = re.match(r"\s*else\b", after)
+    if mel:
+        me = re.match(r"\s*else\s+if\s+content\.trim\(\)\.is_empty\(\)\s*\{", after)
+        mu = re.match(r"\s*else\s*\{", after)
+        if me:
+            eend = match_brace(after, me.end() - 1)
+            if branch_action(after[me.end():eend]) != "remove" or re.match(r"\s*else\b", after[eend:]):
+                raise TranslateError("lock.rs: unrecognised empty-content branch")
+            abandon = "empty"
+        elif mu:
+            eend = match_brace(after, mu.end() - 1)
+            if branch_action(after[mu.end():eend]) != "remove":
+                raise TranslateError("lock.rs: unrecognised branch for unparsable lock files")
+            abandon = "unparsable"
+        else:
+            raise TranslateError("lock.rs: unrecognised `else` after the `parts.len()` block")
+    # how the lock file comes into being: create_new + write_all, or complete (temporary file + hard_link)
+    by_link = "hardLink" in shape
+    if by_link:
+        if not re.search(r"fs::write\(\s*&tmp_path[\s\S]*fs::hard_link\(\s*&tmp_path\s*,\s*&lock_path\s*\)", acq):
+            raise TranslateError("lock.rs: hard_link publish is not `fs::write(&tmp_path, ..)` then `fs::hard_link(&tmp_path, &lock_path)`")
+        if "optCreateNew" in shape or "writeAll" in shape:
+            raise TranslateError("lock.rs: both create_new/write_all and hard_link in acquire")
     defaults = re.findall(r"\.parse::<(u\d+)>\(\)\s*\.unwrap_or\((\d+)\)", acq)
     if len(defaults) != 2:
         raise TranslateError("lock.rs: expected two `.parse::<uN>().unwrap_or(k)`")
     # the decision chain
     chain = []
-    m = re.search(r"\bif\s+current_time\s*-\s*timestamp\s*(>=|>|<=|<)\s*STALE_LOCK_TIMEOUT_SECS\s*\{", acq)
+    m = re.search(r"\bif\s+(current_time\s*-\s*timestamp|current_time\.saturating_sub\(timestamp\))\s*(>=|>|<=|<)\s*"
+                  r"STALE_LOCK_TIMEOUT_SECS\s*\{", acq)
     if not m:
         raise TranslateError("lock.rs: stale test `current_time - timestamp > STALE_LOCK_TIMEOUT_SECS` not found")
-    stale_op = m.group(1)
+    saturating = "saturating_sub" in m.group(1)
+    stale_op = m.group(2)
     end1 = match_brace(acq, m.end() - 1)
     blk1 = acq[m.end():end1]
     chain.append(("stale" + {">": "Gt", ">=": "Ge", "<": "Lt", "<=": "Le"}[stale_op], branch_action(blk1)))
@@ -210,7 +252,33 @@ def lock_rs():
         raise TranslateError("lock.rs: is_process_running is no longer `kill(pid, 0) == 0`")
     # drop must be unconditional on content; release must not be what Drop calls
     release_callers = []
-    return {"timeout": timeout, "shape": shape, "drop": drop, "parts_op": parts_op, "parts_n": parts_n,
+    # bookkeeping for the exit path that skips destructors: the path is registered at the end of acquire (after the
+    # write), de-registered in Drop, and the Ctrl-C handler calls release_held_locks() before process::exit
+    # Drop: unconditional, or only if the content is still ours (helper `owns_lock_file`)
+    drop_checks = False
+    if re.search(r"\bowns_lock_file\(\s*&self\.path", fns["drop"]):
+        helper = fns.get("owns_lock_file", "")
+        a0h = spans.get("owns_lock_file")
+        raw_helper = raw[a0h[0]:a0h[1]] if a0h else ""
+        if not (re.search(r"fs::read_to_string\(path\)", helper) and "content.trim() == format!(" in raw_helper
+                and "{pid}:{timestamp}" in raw_helper):
+            raise TranslateError("lock.rs: owns_lock_file is not `read_to_string(path)` compared with \"{pid}:{timestamp}\"")
+        if "exists" in drop:
+            raise TranslateError("lock.rs: Drop both checks existence and content")
+        drop_checks = True
+    held_registered = bool(re.search(r"(?:write_all|hard_link)[\s\S]*HELD_LOCKS[\s\S]*\.push\(", acq)
+                           and re.search(r"HELD_LOCKS[\s\S]*\.retain\(", fns["drop"]))
+    main = strip_test_modules(blank_noncode(read("renamify-cli/src/main.rs")))
+    prompt_releases = False
+    mh = re.search(r"if\s+renamify_core::interrupt::confirmation_prompt_active\(\)\s*\{", main)
+    if mh:
+        hend = match_brace(main, mh.end() - 1)
+        blk = main[mh.end():hend]
+        mr, mx = re.search(r"release_held_locks\(\)", blk), re.search(r"process::exit\(", blk)
+        prompt_releases = bool(mr and mx and mr.start() < mx.start())
+    return {"timeout": timeout, "shape": shape, "drop": drop, "release_held": release_held, "abandon": abandon, "by_link": by_link, "saturating": saturating, "drop_checks": drop_checks,
+            "held_registered": held_registered, "prompt_releases": prompt_releases,
+            "parts_op": parts_op, "parts_n": parts_n,
             "defaults": defaults, "chain": chain, "release_callers": release_callers}
 
 
@@ -385,6 +453,27 @@ def render(lock, variants, rows, acquiring, release_sites):
         "/-- … and of `impl Drop for LockFile` -/",
         "def dropShape : List FsCall :=",
         "  [" + ", ".join("." + t for t in lock["drop"]) + "]",
+        "",
+        "/-- … of `release_held_locks` (exit path of the Ctrl-C handler at the confirmation prompt; [] = absent) -/",
+        "def releaseHeldShape : List FsCall :=",
+        "  [" + ", ".join("." + t for t in lock["release_held"]) + "]",
+        "",
+        "/-- the lock path is registered in HELD_LOCKS after the write and de-registered in Drop, and the Ctrl-C handler",
+        "    calls `release_held_locks()` before `process::exit` while the confirmation prompt is active -/",
+        f"def promptExitReleases : Bool := {lean_bool(lock['held_registered'] and lock['prompt_releases'])}",
+        "",
+        "/-- what follows the two-part test: nothing (.none), `else if content.trim().is_empty() { remove_file }`",
+        "    (.empty) or `else { remove_file }` (.unparsable) -/",
+        f"def abandonPolicy : Lock.Abandon := .{lock['abandon']}",
+        "",
+        "/-- the age of a lock is `current_time.saturating_sub(timestamp)` instead of `current_time - timestamp` -/",
+        f"def ageSaturates : Bool := {lean_bool(lock['saturating'])}",
+        "",
+        "/-- Drop removes the file only if `owns_lock_file` (content == \"pid:timestamp\") -/",
+        f"def dropChecksContent : Bool := {lean_bool(lock['drop_checks'])}",
+        "",
+        "/-- the lock file is published complete: `fs::write(&tmp_path, ..)` then `fs::hard_link(&tmp_path, &lock_path)` -/",
+        f"def publishByLink : Bool := {lean_bool(lock['by_link'])}",
         "",
         "/-- `parts.len() == N` -/",
         f"def partsTestIsEq : Bool := {lean_bool(lock['parts_op'] == '==')}",
